@@ -8,7 +8,7 @@ def histories(nobj, length):
     ops = []
     for o in range(nobj):
         ops += [("enter_cb", o), ("enter_add", o), ("register", o), ("unregister", o)]
-    ops += [("enter_add2", 0), ("exit", None), ("get", None)]
+    ops += [("enter_add2", 0), ("exit", None), ("get", None), ("get_explicit", 0), ("get_explicit", 1)]
     for n in range(1, length + 1):
         yield from itertools.product(ops, repeat=n)
 
@@ -87,6 +87,19 @@ def run_history(h):
                     if len(seen[i]) != want:
                         return f"callback {i} saw {len(seen[i])} pretask calls, expected {want}"
 
+            elif op == "get_explicit":
+                # callbacks passed with callbacks=: only those are used, and the globally active set is left alone
+                for s_ in seen:
+                    s_.clear()
+                act = set(Callback.active)
+                L.get_sync({"x": Task("x", int)}, "x", callbacks=[objs[o]._callback])
+                if set(Callback.active) != act:
+                    return "a scheduler call with explicit callbacks= changed the globally active set"
+                for i in range(2):
+                    want = 1 if i == o else 0
+                    if len(seen[i]) != want:
+                        return f"explicit callbacks=[cb{o}]: callback {i} saw {len(seen[i])} pretask calls, expected {want}"
+
     finally:
         Callback.active = set()
     return None
@@ -114,7 +127,7 @@ def sweep(tier, seed=0):
     return {
         "function": "dask/callbacks.py (real Callback/add_callbacks objects, nested histories)",
         "bounded": True,
-        "bound": {"callback_objects": 2, "history_length": length, "ops": "enter Callback / enter add_callbacks(1 or 2 cbs) / register / unregister / exit / get_sync"},
+        "bound": {"callback_objects": 2, "history_length": length, "ops": "enter Callback / enter add_callbacks(1 or 2 cbs) / register / unregister / exit / get_sync / get_sync(callbacks=[cb])"},
         "cases": cases, "distinct_nontrivial": cases, "failures_found": len(fails), "wall_s": round(time.time() - t0, 2),
         "samples": [{"native_case": rtc._jsonable(sample)}], "failures": fails,
     }
